@@ -218,6 +218,7 @@ package dawn
 // A function target is reported up to date only if its recorded and current environments are equal.
 //@ func (*dawn.function).diffEnv
 //@   requires f != nil
+//@   nopanic
 //@   ensures  uptodate-only-if-equal: result.0 ==> (result.3 == nil && steq(f.oldEnv, f.newEnv))
 //@   ensures  reason-or-error: (!result.0 && result.3 == nil) ==> result.1 != ""
 //@   modifies heap, dkeys, dvals, it_seen
@@ -245,6 +246,6 @@ package dawn
 
 // Loading a function target reports every error of reading or decoding its record.
 //@ func (*dawn.function).load
-//@   requires f != nil
+//@   requires f != nil && f.proj != nil && f.label != nil
 //@   retassert errors-propagate: result == nil ==> err == nil
 //@   modifies heap, n_json, json_failed, n_save, saved_rerun, saved_data, saved_deps, ipos
